@@ -112,5 +112,52 @@ for name, fn, nmax, required in FUNCS:
                     rep.fail(f"results::{sig_shape}", f"{shape}: got {got} want {sorted(want)}", shape)
                 elif sorted(evaluated_calls) != sorted(want_calls):
                     rep.fail(f"invocations::{sig_shape}", f"{shape}: invoked {sorted(evaluated_calls)} want once per binding {sorted(want_calls)}", shape)
+# ---- a keyword written after a left-out default; and two callables with the same qualified name
+def f4(p0, p1=0, p2=10):
+    CALLS.append(("f4", p0, p1, p2))
+    return p1 <= p0 < p2
+
+
+def make_same_name(kind):
+    if kind == 2:
+        def helper(a, b):
+            CALLS.append(("helper2", a, b))
+            return a > b
+    else:
+        def helper(x, y, z):
+            CALLS.append(("helper3", x, y, z))
+            return x + y > z
+    return helper
+
+
+sf4 = symbolic_function(f4)
+for kw in ({"p2": 2}, {"p1": 1}, {"p1": 1, "p2": 2}, {}):
+    for positional in (True, False):
+        del CALLS[:]
+        x = let(int, [0, 1, 2, 3])
+        st, r = guarded(lambda: sf4(x, **kw) if positional else sf4(p0=x, **kw))
+        rep.case(("f4", tuple(kw), positional))
+        sig = f"function::default-skipped::{'positional' if positional else 'keyword'}"
+        if st == "exc" or not isinstance(r, SymbolicExpression) or CALLS:
+            rep.fail(sig, f"f4(x, **{kw}): {st} {r!r} calls={CALLS}", {"kw": kw})
+            continue
+        st, rows = guarded(lambda: sorted(an(entity(x, r)).evaluate()))
+        want = [v for v in [0, 1, 2, 3] if f4(v, **kw)]
+        if st == "exc" or rows != want:
+            rep.fail(sig, f"f4(x, **{kw}) over 0..3: got {rows!r} want {want}", {"kw": kw})
+        st, r2 = guarded(lambda: sf4(1, **kw))
+        if st == "exc" or r2 != f4(1, **kw):
+            rep.fail(sig + "::concrete", f"f4(1, **{kw}) returned {r2!r}", {"kw": kw})
+h2, h3 = make_same_name(2), make_same_name(3)
+s2, s3 = symbolic_function(h2), symbolic_function(h3)
+for first, second in ((s2, s3), (s3, s2)):
+    for fn in (first, second, first):
+        x = let(int, [0, 1, 2])
+        args_ = (x, 1) if fn is s2 else (x, 1, 2)
+        st, r = guarded(lambda: sorted(an(entity(x, fn(*args_))).evaluate()))
+        want = [v for v in [0, 1, 2] if (v > 1 if fn is s2 else v + 1 > 2)]
+        rep.case(("same-name", fn is s2, first is s2))
+        if st == "exc" or r != want:
+            rep.fail("function::same-qualified-name", f"two functions named helper with different signatures: {st} {r!r} want {want}", {})
 SymbolGraph().clear()
 rep.finish(exhaustive=True)
